@@ -18,7 +18,7 @@ EXPLANATION = (
     "built on the false edge.  R-C12-3: modularity's value depends on communities, weighted, resolution, the degree functions and the "
     "induced subgraphs' edges.  R-C12-4: on the data path from the stored edge list to L_c (get_subgraph's edge list, the "
     "contribution closure of modularity) no operation on edges merges, drops or truncates them (unique/dedup/set-collect/take/...) "
-    "-- necessary for `parallel edges counted individually`.  R-C12-8: the self-loop correction of the degrees behind the degree sums is a count / sum, never a truth value turned into a number.  R-C12-9: the per-community term is L_c/m - R*O*I*norm with m = S, norm = 1/S^2 (directed) resp. m = S/2, norm = 1/(2m)^2 (undirected), compared as expressions on a grid.  NOT decided: that is_partition is exactly the partition predicate, and Newman's formula (numerical)."
+    "-- necessary for `parallel edges counted individually`.  R-C12-8: the self-loop correction of the degrees behind the degree sums is a count / sum, never a truth value turned into a number.  R-C12-9: the per-community term is L_c/m - R*O*I*norm with m = S, norm = 1/S^2 (directed) resp. m = S/2, norm = 1/(2m)^2 (undirected), compared as expressions on a grid.  R-C12-10: the degree maps modularity unwraps lookups in have one entry per node.  NOT decided: that is_partition is exactly the partition predicate, and Newman's formula (numerical)."
 )
 TRUSTED = ["rustc MIR construction", "over-approximated dependence (absence is definite)"]
 
@@ -170,6 +170,9 @@ def run(ctx):
 
     degrees_from_edge_lists(ctx, prog, flows, "R-C12-7", ("get_node_weighted_in_degree", "get_node_weighted_out_degree", "get_node_in_degree", "get_node_out_degree", "get_node_degree", "get_node_weighted_degree"), "the degree sums and m of the modularity formula count a bundle of parallel edges once (at its smallest weight) while L_c counts every edge")
     modularity_formula(ctx, prog, flows, mo)
+    from props.c09 import degree_maps_keyed_by_node_list
+
+    degree_maps_keyed_by_node_list(ctx, prog, flows, "R-C12-10", "modularity looks every member of a community up in these maps and unwraps: for a true partition that contains an isolated node the call panics instead of returning the value")
     from props.c09 import selfloop_term_counts_every_loop
 
     selfloop_term_counts_every_loop(ctx, prog, flows, "R-C12-8", "so the degree sums of the modularity formula fall short of 2m and a single community holding every node no longer has modularity 0")
